@@ -473,7 +473,7 @@ var spEdits = []string{"dupOperationID", "dropPathParam", "renamePathParam", "ex
 	"arrayNoItemsSchema", "nestedItemsNoItems", "requiredUndefined", "requiredViaAdditional", "dupInheritedProperty",
 	"circularAncestry", "overlapPaths", "badPatternParam", "badPatternHeader", "badPatternSchema", "badPatternItems",
 	"unresolvedSchemaRef", "unresolvedParamRef", "noPaths", "emptyPaths", "bodyViaSharedParam", "noResponses", "refWithSiblingDefault",
-	"refWithExtension", "pathParamNoPlaceholder", "requiredViaAdditionalSchema", "sameBodyNameTwice", "tupleDefaults"}
+	"refWithExtension", "pathParamNoPlaceholder", "requiredViaAdditionalSchema", "sameBodyNameTwice", "tupleDefaults", "diamondAncestry", "diamondSharedProperty", "cycleBelowStart", "oddPropertyNames"}
 
 func (g *spgen) applyEdit(doc M, kind string) bool {
 	ops := docOps(doc)
@@ -728,6 +728,32 @@ func (g *spgen) applyEdit(doc M, kind string) bool {
 		defs["CycA"] = M{"allOf": L{M{"$ref": "#/definitions/CycB"}, M{"type": "object"}}}
 		defs["CycB"] = M{"allOf": L{M{"$ref": "#/definitions/CycA"}, M{"type": "object"}}}
 		return true
+	case "diamondAncestry", "diamondSharedProperty", "cycleBelowStart":
+		defs, _ := doc["definitions"].(M)
+		if defs == nil {
+			defs = M{}
+			doc["definitions"] = defs
+		}
+		switch kind {
+		case "diamondAncestry":
+			// breaks no rule: an ancestor shared by two branches is neither a cycle nor (having no property) a duplicate
+			defs["DiaC"] = M{"type": "object"}
+			defs["DiaA"] = M{"allOf": L{M{"$ref": "#/definitions/DiaC"}, M{"type": "object", "properties": M{"a": M{"type": "string"}}}}}
+			defs["DiaB"] = M{"allOf": L{M{"$ref": "#/definitions/DiaC"}, M{"type": "object", "properties": M{"b": M{"type": "string"}}}}}
+			defs["DiaD"] = M{"allOf": L{M{"$ref": "#/definitions/DiaA"}, M{"$ref": "#/definitions/DiaB"}}}
+		case "diamondSharedProperty":
+			// the shared ancestor declares a property: it reaches DiaD twice (duplicate inherited property, not a cycle)
+			defs["DiaC"] = M{"type": "object", "properties": M{"c": M{"type": "string"}}}
+			defs["DiaA"] = M{"allOf": L{M{"$ref": "#/definitions/DiaC"}, M{"type": "object", "properties": M{"a": M{"type": "string"}}}}}
+			defs["DiaB"] = M{"allOf": L{M{"$ref": "#/definitions/DiaC"}, M{"type": "object", "properties": M{"b": M{"type": "string"}}}}}
+			defs["DiaD"] = M{"allOf": L{M{"$ref": "#/definitions/DiaA"}, M{"$ref": "#/definitions/DiaB"}}}
+		default:
+			// a cycle that does not go through the definition the walk starts from, behind an anonymous allOf
+			defs["CybA"] = M{"allOf": L{M{"allOf": L{M{"$ref": "#/definitions/CybB"}}}, M{"type": "object"}}}
+			defs["CybB"] = M{"allOf": L{M{"$ref": "#/definitions/CybC"}}}
+			defs["CybC"] = M{"allOf": L{M{"$ref": "#/definitions/CybB"}, M{"type": "object"}}}
+		}
+		return true
 	case "overlapPaths":
 		for _, p := range sortedKeys(paths) {
 			i := strings.Index(p, "{")
@@ -838,6 +864,19 @@ func (g *spgen) applyEdit(doc M, kind string) bool {
 			doc["definitions"] = defs
 		}
 		defs["Bag"] = M{"type": "object", "required": L{"id"}, "additionalProperties": M{"type": g.pick([]string{"string", "integer"})}}
+		return true
+	case "oddPropertyNames":
+		// breaks no rule: properties named "" and "t." (their paths end in, or contain, a dot next to nothing) with bad defaults
+		// and examples: each must be judged (C09)
+		defs, _ := doc["definitions"].(M)
+		if defs == nil {
+			defs = M{}
+			doc["definitions"] = defs
+		}
+		defs["Odd"] = M{"type": "object", "properties": M{
+			"":   M{"type": "integer", "default": "bad", "example": "bad"},
+			"t.": M{"type": "object", "properties": M{"": M{"type": "boolean", "default": 3}}},
+			"ok": M{"type": "string", "default": "fine"}}}
 		return true
 	case "sameBodyNameTwice":
 		// breaks no rule: several operations with a body parameter of the same name (and responses without schema),
